@@ -1,6 +1,453 @@
-//! C12: harness commands for property C12 (stub).
+//! C12: Hangul composition / decomposition. Sub-commands:
+//!   `rbv c12 preds`            maximal true-ranges of the eight range predicates over 0..0x120000 (hook)
+//!   `rbv c12 arith [--full 1]` compose_hangul / decompose_hangul of unicode.rs on grids (hook)
+//!   `rbv c12 run`              reads requests on stdin:
+//!        `font <kind> <seed> <tone> <dotted>`   switch to the generated font of that variant
+//!        `t <level> <nd> <script> <cp:cluster,...>`   run the text; answers one line
+//!        `r <hook> | <api>` with hook = `cp:cluster:feature:flags,...` (the real
+//!        preprocess_text_hangul on a fresh buffer) and api = `cp:role:cluster:unsafe,...` (public
+//!        `shape`, glyph ids decoded back to character and ljmo/vjmo/tjmo role) or `panic:<class>`.
+//! Fonts are written by the tiny local sfnt writer below (head, hhea, maxp 0.5, hmtx, cmap 12, GSUB with
+//! ljmo/vjmo/tjmo single substitutions that move any glyph g to g + role * N).
+use crate::util::*;
+use rustybuzz::verif::hangul as hk;
+use rustybuzz::{BufferClusterLevel, BufferFlags, Face, UnicodeBuffer};
+use std::io::{BufRead, Write};
 
-pub fn run(_args: &[String]) {
-    eprintln!("c12: not implemented");
-    std::process::exit(2);
+pub fn run(args: &[String]) {
+    quiet_panics();
+    match args.get(0).map(|s| s.as_str()) {
+        Some("preds") => preds(),
+        Some("arith") => arith(args),
+        Some("run") => serve(),
+        _ => {
+            eprintln!("c12 preds|arith|run");
+            std::process::exit(2)
+        }
+    }
+}
+
+// ------------------------------------------------------------------ pure hooks
+
+fn preds() {
+    let j = hk::jmo_numbers();
+    println!("jmo {} {} {}", j[0], j[1], j[2]);
+    for k in 0..8u8 {
+        let mut line = format!("pred {}", k);
+        let mut open: Option<u32> = None;
+        let lim = 0x120000u32;
+        for u in 0..=lim {
+            let v = u < lim && hk::pred(k, u);
+            match (v, open) {
+                (true, None) => open = Some(u),
+                (false, Some(lo)) => {
+                    line.push_str(&format!(" {}-{}", lo, u - 1));
+                    open = None;
+                }
+                _ => {}
+            }
+        }
+        // a few values far outside the Unicode range (the functions take u32)
+        for &u in &[0x7FFF_FFFFu32, 0x8000_1100, 0xFFFF_AC00, u32::MAX] {
+            if hk::pred(k, u) {
+                line.push_str(&format!(" {}-{}", u, u));
+            }
+        }
+        println!("{}", line);
+    }
+}
+
+fn arith(args: &[String]) {
+    let full = arg_u64(args, "--full", 0) != 0;
+    let (sb, sc) = (0xAC00u32, 11172u32);
+    // decompose: every syllable and a margin on both sides
+    for s in sb - 64..sb + sc + 64 {
+        let c = char::from_u32(s).unwrap();
+        match catch(move || hk::decompose_hangul(c)) {
+            Ok(Some((a, b))) => println!("dec {} {} {}", s, a as u32, b as u32),
+            Ok(None) => println!("dec {} 0 0", s),
+            Err(e) => println!("dec {} panic {}", s, e),
+        }
+    }
+    for &s in &[0u32, 0x1100, 0xABFF, 0xD7A4, 0xE000, 0x10FFFF] {
+        let c = char::from_u32(s).unwrap();
+        match catch(move || hk::decompose_hangul(c)) {
+            Ok(Some((a, b))) => println!("dec {} {} {}", s, a as u32, b as u32),
+            Ok(None) => println!("dec {} 0 0", s),
+            Err(e) => println!("dec {} panic {}", s, e),
+        }
+    }
+    let comp = |a: u32, b: u32| {
+        let (ca, cb) = (char::from_u32(a).unwrap(), char::from_u32(b).unwrap());
+        match catch(move || hk::compose_hangul(ca, cb)) {
+            Ok(Some(r)) => println!("comp {} {} {}", a, b, r as u32),
+            Ok(None) => println!("comp {} {} 0", a, b),
+            Err(e) => println!("comp {} {} panic {}", a, b, e),
+        }
+    };
+    for l in 0x10F8..0x1120u32 {
+        for v in 0x1158..0x1180u32 {
+            comp(l, v);
+        }
+    }
+    for s in sb - 8..sb + sc + 8 {
+        let lv = s >= sb && s < sb + sc && (s - sb) % 28 == 0;
+        let edge = s < sb + 60 || s + 60 >= sb + sc;
+        if full || lv || edge {
+            for t in 0x11A0..0x11C8u32 {
+                comp(s, t);
+            }
+        }
+    }
+    comp(0x1100, 0x11A8);
+    comp(0x61, 0x1161);
+    comp(0xAC00, 0x61);
+}
+
+// ------------------------------------------------------------------ font variants
+
+/// kind 0: syllables + jamo; 1: jamo only; 2: syllables only; 3: mixed by a seeded predicate
+/// (jamo present with probability 3/4, syllables 1/2). tone 0: tone marks absent, 1: present with
+/// advance 1000, 2: present with advance 0. dotted: U+25CC present. Latin a..e always present.
+#[derive(Clone, Copy, Debug)]
+struct Variant {
+    kind: u32,
+    seed: u32,
+    tone: u32,
+    dotted: bool,
+}
+
+fn mix(seed: u32, cp: u32) -> u32 {
+    let x = cp.wrapping_add(seed.wrapping_mul(7919));
+    let x = x.wrapping_mul(2654435761);
+    (x >> 20) & 3
+}
+
+fn is_jamo(cp: u32) -> bool {
+    (0x1100..=0x11FF).contains(&cp) || (0xA960..=0xA97C).contains(&cp) || (0xD7B0..=0xD7C6).contains(&cp) || (0xD7CB..=0xD7FB).contains(&cp)
+}
+
+fn is_syl(cp: u32) -> bool {
+    (0xAC00..=0xD7A3).contains(&cp)
+}
+
+impl Variant {
+    fn has(&self, cp: u32) -> bool {
+        if (0x61..=0x65).contains(&cp) {
+            return true;
+        }
+        if cp == 0x25CC {
+            return self.dotted;
+        }
+        if cp == 0x302E || cp == 0x302F {
+            return self.tone != 0;
+        }
+        if is_jamo(cp) {
+            return match self.kind {
+                0 | 1 => true,
+                2 => false,
+                _ => mix(self.seed, cp) != 0,
+            };
+        }
+        if is_syl(cp) {
+            return match self.kind {
+                0 | 2 => true,
+                1 => false,
+                _ => mix(self.seed, cp) & 1 == 0,
+            };
+        }
+        false
+    }
+    fn repertoire(&self) -> Vec<u32> {
+        let mut v = Vec::new();
+        for cp in 0x61..=0xD7FFu32 {
+            if self.has(cp) {
+                v.push(cp);
+            }
+        }
+        v
+    }
+}
+
+// ------------------------------------------------------------------ sfnt writer
+
+fn be16(v: &mut Vec<u8>, x: u16) {
+    v.extend_from_slice(&x.to_be_bytes());
+}
+fn be32(v: &mut Vec<u8>, x: u32) {
+    v.extend_from_slice(&x.to_be_bytes());
+}
+
+fn build_font(var: &Variant, rep: &[u32]) -> Vec<u8> {
+    let n = rep.len() as u32;
+    let num_glyphs = 1 + 4 * n;
+    assert!(num_glyphs < 0xFFFF);
+    // head
+    let mut head = Vec::new();
+    be32(&mut head, 0x00010000);
+    be32(&mut head, 0x00010000);
+    be32(&mut head, 0);
+    be32(&mut head, 0x5F0F3CF5);
+    be16(&mut head, 0);
+    be16(&mut head, 1000);
+    head.extend_from_slice(&[0u8; 16]);
+    for _ in 0..4 {
+        be16(&mut head, 0);
+    }
+    be16(&mut head, 0);
+    be16(&mut head, 8);
+    be16(&mut head, 2);
+    be16(&mut head, 0);
+    be16(&mut head, 0);
+    // hhea
+    let mut hhea = Vec::new();
+    be32(&mut hhea, 0x00010000);
+    be16(&mut hhea, 800);
+    be16(&mut hhea, (-200i16) as u16);
+    be16(&mut hhea, 0);
+    be16(&mut hhea, 1000);
+    for _ in 0..11 {
+        be16(&mut hhea, 0);
+    }
+    be16(&mut hhea, num_glyphs as u16);
+    // maxp 0.5
+    let mut maxp = Vec::new();
+    be32(&mut maxp, 0x00005000);
+    be16(&mut maxp, num_glyphs as u16);
+    // hmtx: gid 0 = notdef, then 4 copies of the repertoire (role 0..3)
+    let mut hmtx = Vec::new();
+    be16(&mut hmtx, 1000);
+    be16(&mut hmtx, 0);
+    for _role in 0..4 {
+        for &cp in rep {
+            let adv = if (cp == 0x302E || cp == 0x302F) && var.tone == 2 { 0 } else { 1000 };
+            be16(&mut hmtx, adv);
+            be16(&mut hmtx, 0);
+        }
+    }
+    // cmap format 12 under (3, 10)
+    let mut groups: Vec<(u32, u32, u32)> = Vec::new();
+    for (i, &cp) in rep.iter().enumerate() {
+        let gid = 1 + i as u32;
+        match groups.last_mut() {
+            Some(g) if g.1 + 1 == cp && g.2 + (g.1 - g.0) + 1 == gid => g.1 = cp,
+            _ => groups.push((cp, cp, gid)),
+        }
+    }
+    let mut cmap = Vec::new();
+    be16(&mut cmap, 0);
+    be16(&mut cmap, 1);
+    be16(&mut cmap, 3);
+    be16(&mut cmap, 10);
+    be32(&mut cmap, 12);
+    be16(&mut cmap, 12);
+    be16(&mut cmap, 0);
+    be32(&mut cmap, 16 + 12 * groups.len() as u32);
+    be32(&mut cmap, 0);
+    be32(&mut cmap, groups.len() as u32);
+    for g in &groups {
+        be32(&mut cmap, g.0);
+        be32(&mut cmap, g.1);
+        be32(&mut cmap, g.2);
+    }
+    // GSUB: scripts DFLT + hang -> one default LangSys with features ljmo, tjmo, vjmo (sorted by tag)
+    let mut gsub = Vec::new();
+    be32(&mut gsub, 0x00010000);
+    be16(&mut gsub, 10); // ScriptList
+    be16(&mut gsub, 10 + 30); // FeatureList
+    be16(&mut gsub, 10 + 30 + 38); // LookupList
+    // ScriptList (30 bytes): count, 2 records, Script table (4), LangSys (12)
+    be16(&mut gsub, 2);
+    gsub.extend_from_slice(b"DFLT");
+    be16(&mut gsub, 14);
+    gsub.extend_from_slice(b"hang");
+    be16(&mut gsub, 14);
+    be16(&mut gsub, 4); // defaultLangSys
+    be16(&mut gsub, 0); // langSysCount
+    be16(&mut gsub, 0); // lookupOrder
+    be16(&mut gsub, 0xFFFF);
+    be16(&mut gsub, 3);
+    be16(&mut gsub, 0);
+    be16(&mut gsub, 1);
+    be16(&mut gsub, 2);
+    // FeatureList (38 bytes): count, 3 records (6 each), 3 feature tables (6 each)
+    be16(&mut gsub, 3);
+    let order: [(&[u8; 4], u16); 3] = [(b"ljmo", 0), (b"tjmo", 2), (b"vjmo", 1)];
+    for (i, (tag, _)) in order.iter().enumerate() {
+        gsub.extend_from_slice(*tag);
+        be16(&mut gsub, 20 + 6 * i as u16);
+    }
+    for (_, lookup) in order.iter() {
+        be16(&mut gsub, 0);
+        be16(&mut gsub, 1);
+        be16(&mut gsub, *lookup);
+    }
+    // LookupList: count, 3 offsets, 3 lookups of 8 + 6 + 10 bytes; lookup r adds (r + 1) * n
+    be16(&mut gsub, 3);
+    for r in 0..3u16 {
+        be16(&mut gsub, 8 + 24 * r);
+    }
+    for r in 0..3u32 {
+        be16(&mut gsub, 1); // type: single
+        be16(&mut gsub, 0);
+        be16(&mut gsub, 1);
+        be16(&mut gsub, 8);
+        be16(&mut gsub, 1); // format 1
+        be16(&mut gsub, 6);
+        be16(&mut gsub, (((r + 1) * n) & 0xFFFF) as u16);
+        be16(&mut gsub, 2); // coverage format 2
+        be16(&mut gsub, 1);
+        be16(&mut gsub, 1);
+        be16(&mut gsub, n as u16);
+        be16(&mut gsub, 0);
+    }
+    let mut tables: Vec<(&[u8; 4], Vec<u8>)> = vec![
+        (b"GSUB", gsub),
+        (b"cmap", cmap),
+        (b"head", head),
+        (b"hhea", hhea),
+        (b"hmtx", hmtx),
+        (b"maxp", maxp),
+    ];
+    tables.sort_by(|a, b| a.0.cmp(b.0));
+    let mut out = Vec::new();
+    be32(&mut out, 0x00010000);
+    be16(&mut out, tables.len() as u16);
+    be16(&mut out, 64);
+    be16(&mut out, 2);
+    be16(&mut out, (tables.len() as u16) * 16 - 64);
+    let mut off = 12 + 16 * tables.len() as u32;
+    for (tag, data) in &tables {
+        out.extend_from_slice(*tag);
+        be32(&mut out, 0);
+        be32(&mut out, off);
+        be32(&mut out, data.len() as u32);
+        off += (data.len() as u32 + 3) & !3;
+    }
+    for (_, data) in &tables {
+        out.extend_from_slice(data);
+        while out.len() % 4 != 0 {
+            out.push(0);
+        }
+    }
+    out
+}
+
+// ------------------------------------------------------------------ the request loop
+
+fn parse_text(s: &str) -> Option<Vec<(char, u32)>> {
+    let mut v = Vec::new();
+    for it in s.split(',') {
+        if it.is_empty() {
+            continue;
+        }
+        let (c, k) = it.split_once(':')?;
+        v.push((char::from_u32(c.parse().ok()?)?, k.parse().ok()?));
+    }
+    Some(v)
+}
+
+fn serve() {
+    let stdin = std::io::stdin();
+    let stdout = std::io::stdout();
+    let mut w = std::io::BufWriter::new(stdout.lock());
+    let mut font: Vec<u8> = Vec::new();
+    let mut rep: Vec<u32> = Vec::new();
+    for line in stdin.lock().lines() {
+        let Ok(line) = line else { break };
+        let p: Vec<&str> = line.split_whitespace().collect();
+        if p.is_empty() {
+            continue;
+        }
+        if p[0] == "font" && p.len() == 5 {
+            let var = Variant {
+                kind: p[1].parse().unwrap_or(0),
+                seed: p[2].parse().unwrap_or(0),
+                tone: p[3].parse().unwrap_or(0),
+                dotted: p[4] == "1",
+            };
+            rep = var.repertoire();
+            font = build_font(&var, &rep);
+            // self-check: the face maps exactly the variant's repertoire, with the intended advances
+            let mut bad = 0;
+            match Face::from_slice(&font, 0) {
+                Some(face) => {
+                    for cp in 0x20..=0xD7FFu32 {
+                        let c = char::from_u32(cp).unwrap();
+                        let g = face.glyph_index(c);
+                        let want = rep.binary_search(&cp).ok().map(|i| 1 + i as u16);
+                        if g.map(|g| g.0) != want {
+                            bad += 1;
+                        }
+                    }
+                    let _ = writeln!(w, "font-ok glyphs={} chars={} cmap-mismatches={}", face.number_of_glyphs(), rep.len(), bad);
+                }
+                None => {
+                    let _ = writeln!(w, "font-bad unparsable");
+                }
+            }
+            continue;
+        }
+        if p[0] == "t" && p.len() == 5 {
+            let level: u32 = p[1].parse().unwrap_or(0);
+            let nd = p[2] == "1";
+            let scr = p[3] == "1";
+            let Some(text) = parse_text(p[4]) else {
+                let _ = writeln!(w, "r bad-request");
+                continue;
+            };
+            let Some(face) = Face::from_slice(&font, 0) else {
+                let _ = writeln!(w, "r no-font");
+                continue;
+            };
+            let t1 = text.clone();
+            let hook = catch(std::panic::AssertUnwindSafe(|| hk::preprocess(&face, &t1, level, nd)));
+            let hs = match hook {
+                Ok(v) => v.iter().map(|x| format!("{}:{}:{}:{}", x.0, x.1, x.2, x.3)).collect::<Vec<_>>().join(","),
+                Err(e) => format!("panic:{}", e),
+            };
+            let n = rep.len() as u32;
+            let t2 = text.clone();
+            let api = catch(std::panic::AssertUnwindSafe(|| {
+                let mut b = UnicodeBuffer::new();
+                for (c, k) in &t2 {
+                    b.add(*c, *k);
+                }
+                if scr {
+                    b.set_script(rustybuzz::script::HANGUL);
+                }
+                b.set_cluster_level(match level {
+                    0 => BufferClusterLevel::MonotoneGraphemes,
+                    1 => BufferClusterLevel::MonotoneCharacters,
+                    _ => BufferClusterLevel::Characters,
+                });
+                if nd {
+                    b.set_flags(BufferFlags::DO_NOT_INSERT_DOTTED_CIRCLE);
+                }
+                let gb = rustybuzz::shape(&face, &[], b);
+                gb.glyph_infos()
+                    .iter()
+                    .map(|i| (i.glyph_id, i.cluster, i.unsafe_to_break()))
+                    .collect::<Vec<_>>()
+            }));
+            let as_ = match api {
+                Ok(v) => v
+                    .iter()
+                    .map(|(g, k, u)| {
+                        if *g == 0 || *g > 4 * n {
+                            format!("0:{}:{}:{}", g, k, *u as u8)
+                        } else {
+                            format!("{}:{}:{}:{}", rep[((g - 1) % n) as usize], (g - 1) / n, k, *u as u8)
+                        }
+                    })
+                    .collect::<Vec<_>>()
+                    .join(","),
+                Err(e) => format!("panic:{}", e),
+            };
+            let _ = writeln!(w, "r {} | {}", hs, as_);
+            continue;
+        }
+        let _ = writeln!(w, "r bad-request");
+    }
+    let _ = w.flush();
 }
